@@ -1,6 +1,164 @@
+/-
+  C18 — pretty-printing (`luqum.pretty.Prettifier`, model `Luqum.prettify`).
+
+  * determinism: the output is a function of (indent, max_len, inline_ops, tree);
+  * structure: for every configuration the printer emits the chunks of the tree (the strings
+    yielded by `_get_chains`, in order) unaltered, and between them only blanks and newlines;
+  * totality: the printer succeeds on every tree without an operand-less operation (as far as it
+    looks: through operations, groups, search fields), and fails on an operand-less operation;
+    exact success condition on the chain list;
+  * relation to `str`: when the heads/tails below the walked nodes are blank-only, the output and
+    `str(tree)` are equal up to blanks and newlines.
+
+  Definitions (`squash`, `chunks`, `NoEmptyOp`, `BlankLay`, `okL`, `startsOk`) and helper lemmas are
+  in `Luqum.Lemmas.PrettyLemmas`.
+-/
 import Luqum.Model.Pretty
+import Luqum.Lemmas.PrettyLemmas
+
 namespace Luqum.Props.C18
-open Luqum
+open Luqum Luqum.Pretty
+
 theorem pretty_word (cfg : PrettyCfg) (v : Str) (l : Lay) (h : ¬ v.contains '\n') :
     (getChains cfg.inlineOps none (.term .word v l)) = [Chain.str v] := rfl
+
+/-! ### (1) determinism -/
+
+/-- the output is a function of the configuration and the tree -/
+theorem prettify_congr (cfg cfg' : PrettyCfg) (t t' : Tree) (hc : cfg = cfg') (ht : t = t') :
+    prettify cfg t = prettify cfg' t' := by subst hc; subst ht; rfl
+
+/-- … and of the configuration only `indent`, `max_len` and `inline_ops` matter -/
+theorem prettify_congr_fields (cfg cfg' : PrettyCfg) (t : Tree) (h1 : cfg.indent = cfg'.indent)
+    (h2 : cfg.maxLen = cfg'.maxLen) (h3 : cfg.inlineOps = cfg'.inlineOps) :
+    prettify cfg t = prettify cfg' t := by
+  cases cfg; cases cfg'; simp only at h1 h2 h3; subst h1; subst h2; subst h3; rfl
+
+/-! ### (2) structure: chunks are never altered, only blanks / newlines are inserted -/
+
+/-- **Structure theorem.** For every indent, max_len, inline_ops and every tree: after removing
+all blanks and newlines, the output is the concatenation of the (squashed) chunks of the tree, in
+order. No hypothesis on the chunks is needed (a chunk containing newlines is split and re-joined,
+which only moves newlines). -/
+theorem prettify_squash (cfg : PrettyCfg) (t : Tree) (out : Str) (h : prettify cfg t = some out) :
+    squash out = (chunks (getChains cfg.inlineOps none t)).flatMap squash :=
+  concatenates_squash cfg _ _ _ _ out h
+
+/-- the same, phrased with the one-line rendering of the chunks -/
+theorem prettify_squash_join (cfg : PrettyCfg) (t : Tree) (out : Str)
+    (h : prettify cfg t = some out) :
+    squash out = squash (joinStr [' '] (chunks (getChains cfg.inlineOps none t))) := by
+  rw [prettify_squash cfg t out h, squash_joinStr [' '] squash_blank]
+
+/-- two configurations print the same thing up to blanks and newlines, provided `inline_ops` agree
+(`inline_ops` does not change the chunks either, see `prettify_squash_str`) -/
+theorem prettify_squash_cfg (cfg cfg' : PrettyCfg) (t : Tree) (out out' : Str)
+    (hi : cfg.inlineOps = cfg'.inlineOps)
+    (h : prettify cfg t = some out) (h' : prettify cfg' t = some out') :
+    squash out = squash out' := by
+  rw [prettify_squash cfg t out h, prettify_squash cfg' t out' h', hi]
+
+/-- `sep.join(s.split("\n"))` with a blank-only `sep` changes only blanks / newlines -/
+theorem squash_join_splitLines (sep s : Str) (hs : squash sep = []) :
+    squash (joinStr sep (splitLines s)) = squash s :=
+  Pretty.squash_join_splitLines sep s hs
+
+/-! ### (3) totality -/
+
+/-- **Totality.** A tree without operand-less operation is always printed. -/
+theorem prettify_isSome (cfg : PrettyCfg) (t : Tree) (h : NoEmptyOp t = true) :
+    (prettify cfg t).isSome := by
+  have ⟨h1, h2⟩ := getChains_ok cfg.inlineOps t none h
+  exact concatenates_isSome cfg _ _ _ _ h1 h2
+
+theorem prettify_ne_none (cfg : PrettyCfg) (t : Tree) (h : NoEmptyOp t = true) :
+    prettify cfg t ≠ none := by
+  have := prettify_isSome cfg t h
+  intro hn; simp [hn] at this
+
+/-- exact success condition: every (nested) chain list is non-empty and does not start with a
+stick marker -/
+theorem prettify_isSome_iff (cfg : PrettyCfg) (t : Tree) :
+    (prettify cfg t).isSome ↔
+      (okL (getChains cfg.inlineOps none t) = true ∧
+        startsOk (getChains cfg.inlineOps none t) = true) :=
+  concatenates_isSome_iff cfg _ _ _ _
+
+/-- the hypothesis is needed: an operation without operands makes the printer fail
+(`None.split` in the implementation), for every configuration -/
+theorem prettify_empty_op (cfg : PrettyCfg) (k : OpK) (l : Lay) :
+    prettify cfg (.op k [] l) = none := by
+  have h := prettify_isSome_iff cfg (.op k [] l)
+  simp [getChains, getChainsOperands, startsOk] at h
+  exact h
+
+/-- … also when it is nested in another operation -/
+theorem prettify_nested_empty_op (cfg : PrettyCfg) (l l' : Lay) (x : Tree) :
+    prettify cfg (.op .and [x, .op .or [] l'] l) = none := by
+  have h := prettify_isSome_iff cfg (.op .and [x, .op .or [] l'] l)
+  have hw : (OpK.and.word == OpK.or.word) = false := by decide
+  simp [getChains, getChainsOperands, okL_append, hw, startsOk] at h
+  cases hp : prettify cfg (.op .and [x, .op .or [] l'] l) with
+  | none => rfl
+  | some o => simp [hp] at h
+
+/-! ### (4) relation to `str` -/
+
+/-- the chunks of a tree spell `str(tree)` up to blanks and newlines, when the heads / tails below
+the walked nodes are blank-only -/
+theorem chunks_str (inline : Bool) (t : Tree) (h : BlankLay t = true) :
+    (chunks (getChains inline none t)).flatMap squash = squash t.str :=
+  chunks_getChains inline t none h
+
+/-- **The printer only changes blanks and newlines** (for trees whose heads / tails are blank-only,
+e.g. parsed trees): for every configuration the output equals `str(tree)` up to blanks/newlines. -/
+theorem prettify_squash_str (cfg : PrettyCfg) (t : Tree) (out : Str) (h : BlankLay t = true)
+    (hp : prettify cfg t = some out) : squash out = squash t.str := by
+  rw [prettify_squash cfg t out hp, chunks_str _ t h]
+
+/-- any two configurations agree up to blanks and newlines -/
+theorem prettify_squash_any_cfg (cfg cfg' : PrettyCfg) (t : Tree) (out out' : Str)
+    (h : BlankLay t = true) (hp : prettify cfg t = some out) (hp' : prettify cfg' t = some out') :
+    squash out = squash out' := by
+  rw [prettify_squash_str cfg t out h hp, prettify_squash_str cfg' t out' h hp']
+
+/-! ### non-vacuity -/
+
+section examples
+
+private def w (s : String) : Tree := .term .word s.toList {}
+private def ex1 : Tree := .op .and [w "a", .group .group (.op .or [w "b", w "c"] {}) {}] {}
+/-- a tail that is not blank: dropped by the printer, printed by `str` -/
+private def ex2 : Tree := .op .and [.term .word ['a'] { tail := ['x'] }, w "b"] {}
+
+local macro "pretty_eval" : tactic => `(tactic|
+  (simp [prettify, getChains, getChainsOperands, opSeparators, OpK.word, concatenates, concatElts,
+    applyStick, Chain.countList, Chain.count, splitLines, splitLines.go, joinStr, Tree.str,
+    Tree.body, Tree.full, Tree.fulls, joinWith, List.replicate]))
+
+example : prettify {} ex1 = some "a AND ( b OR c )".toList := by unfold ex1 w; pretty_eval
+example : prettify { maxLen := 3 } ex1 = some "a\nAND\n(\n    b\n    OR\n    c\n)".toList := by
+  unfold ex1 w; pretty_eval
+example : prettify { maxLen := 3, inlineOps := true } ex1 = some "a AND\n(\n    b OR\n    c )".toList := by
+  unfold ex1 w; pretty_eval
+example : chunks (getChains false none ex1)
+    = ["a".toList, "AND".toList, "(".toList, "b".toList, "OR".toList, "c".toList, ")".toList] := by
+  unfold ex1 w; simp [getChains, getChainsOperands, opSeparators, OpK.word, Tree.str, Tree.body]
+example : squash "a AND\n(\n    b OR\n    c )".toList = "aAND(bORc)".toList := by decide
+example : NoEmptyOp ex1 = true := by unfold ex1 w; simp [NoEmptyOp, NoEmptyOps]
+example : BlankLay ex1 = true := by
+  unfold ex1 w; simp [BlankLay, BlankLays, blankHT, Tree.head, Tree.tail, Tree.lay]
+example : ex1.str = "aAND(bORc)".toList := by unfold ex1 w; pretty_eval
+/-- `BlankLay` is needed in `prettify_squash_str` -/
+example : prettify {} ex2 = some "a AND b".toList ∧ ex2.str = "axANDb".toList := by
+  unfold ex2 w; constructor <;> pretty_eval
+/-- failure with `inline_ops`: a leading stick marker (`NoEmptyOp` fails) … -/
+example : prettify { inlineOps := true } (.op .and [.op .and [] {}, w "x"] {}) = none := by
+  unfold w; pretty_eval
+/-- … while the same tree is printed without `inline_ops`: `NoEmptyOp` is sufficient, not necessary -/
+example : prettify {} (.op .and [.op .and [] {}, w "x"] {}) = some "AND x".toList := by
+  unfold w; pretty_eval
+
+end examples
+
 end Luqum.Props.C18
